@@ -1,4 +1,5 @@
 import BSModel.Proofs.BuilderBal
+import BSModel.Proofs.ParseLinkClose
 /-! # C03 — the tree-construction state machine of `BeautifulSoup`
 
 Property theorems only.  `St`/`step`/`run`/`finish`/`build` mirror `bs4/__init__.py` statement by statement
@@ -235,5 +236,80 @@ example : noRootL cfgX [.elem [3] none [.text 0 [65], .text 0 [66], .elem [1] no
   decide
 example : build cfgX (eventsL [.elem [3] none [.text 0 [65], .text 0 [66], .elem [1] none [.text 0 [32]], .text 5 [10, 10]]]) =
     [.elem [3] none [.text 0 [65, 66], .elem [1] none [.text 0 [32]], .text 5 [10]]] := by rfl
+
+/-! ## 9: the tree is always well linked (C01) — parse-time linkage
+
+`ParseLink.prun` (Model/ParseLink.lean) mirrors the pointer writes of `PageElement.setup`, `handle_starttag`,
+`object_was_parsed`, `_linkage_fixer` and `pushTag`/`popTag` on the pointer heap of C01; `ParseLink.actions`
+replays which objects the machine above creates and when it closes them. The theorems hold for **every**
+action list, in particular for the one of every event list. -/
+
+open BS.ParseLink in
+/-- **The tree is always well linked.** Every event sequence a builder can send yields a consistently linked
+    document: after the actions of any event list — under any configuration — the six link fields of every
+    object and the children lists describe one forest (`Good`, the invariant of C01), so every navigation view
+    of the parsed document agrees with every other. -/
+theorem parsed_document_well_linked (cfg : Cfg) (evs : List Ev) :
+    Heap.Good (prun PSt.init (actions cfg (St.init cfg) evs)).heap :=
+  parse_wf _
+
+open BS.ParseLink in
+/-- … and so does every prefix of the parser's work and every other order of creating and closing objects:
+    the heap is consistent after **any** list of parser actions, and ids never handed out are plain strings. -/
+theorem parse_actions_well_linked (acts : List Act) : Heap.Good2 (prun PSt.init acts).heap :=
+  parse_good2 acts
+
+open BS.ParseLink in
+/-- The BeautifulSoup object stands outside the element chain after parsing: its `next_element` is `None`
+    (`PageElement.setup` never links it), the first element created has no `previous_element`, and the element
+    created last has no `next_element`. -/
+theorem parse_root_outside_chain (acts : List Act) :
+    (prun PSt.init acts).heap.ne 0 = none ∧ (prun PSt.init acts).heap.pe 1 = none ∧
+    (prun PSt.init acts).heap.ne ((prun PSt.init acts).heap.next - 1) = none :=
+  ⟨parse_root_ne acts, parse_chain_ends acts⟩
+
+open BS.ParseLink in
+/-- **Document order is creation order.** The pre-order walk of the children lists from the BeautifulSoup object
+    visits exactly the objects created, each once, in the order of their creation; `next_element` /
+    `previous_element` link each created object to the one created right after / before it; and
+    `_most_recent_element` is the object created last. -/
+theorem parsed_order_is_creation_order (acts : List Act) :
+    Heap.docOrder (prun PSt.init acts).heap 0 = List.range (prun PSt.init acts).heap.next ∧
+    (∀ n, 1 ≤ n → n + 1 < (prun PSt.init acts).heap.next →
+      (prun PSt.init acts).heap.ne n = some (n + 1) ∧ (prun PSt.init acts).heap.pe (n + 1) = some n) ∧
+    (prun PSt.init acts).mre =
+      if (prun PSt.init acts).heap.next = 1 then none else some ((prun PSt.init acts).heap.next - 1) :=
+  ⟨parse_docOrder acts, parse_chain acts, parse_mre acts⟩
+
+open BS.ParseLink in
+/-- The open elements are the right spine of the document: the tag stack is never empty, its outermost entry is
+    the BeautifulSoup object, every entry is a tag, and the last descendant of every open element is the object
+    created last (so no open element has anything after it — which is why `_linkage_fixer` never has anything
+    to repair, `ParseLink.newStr_fixer_noop`). -/
+theorem open_elements_are_right_spine (acts : List Act) :
+    (prun PSt.init acts).stack.getLast? = some 0 ∧
+    ∀ c ∈ (prun PSt.init acts).stack,
+      ((prun PSt.init acts).heap.kind c).isTag = true ∧
+      Heap.lastDown (prun PSt.init acts).heap (prun PSt.init acts).heap.cap c = (prun PSt.init acts).heap.next - 1 :=
+  ⟨parse_stack_root acts, parse_open_last acts⟩
+
+open BS.ParseLink in
+/-- Everything is closed at the end, on the pointer side too: after the actions of a complete event list only
+    the BeautifulSoup object is left on the parser's tag stack. -/
+theorem parsed_everything_closed (cfg : Cfg) (hc : CfgOK cfg) (evs : List Ev) :
+    (prun PSt.init (actions cfg (St.init cfg) evs)).stack = [0] :=
+  actions_closed cfg hc evs
+
+/-! non-vacuity: the action list of a real event list, and the linked document it produces
+    (`<3>A<1> </1></3>B`: objects 1 = `<3>`, 2 = "A", 3 = `<1>`, 4 = " ", 5 = "B") -/
+open BS.ParseLink in
+example : actions cfgX (St.init cfgX)
+      [.start [3] none, .data [65], .start [1] none, .data [32], .stop [3] none, .data [66]] =
+    [.newTag, .newStr, .newTag, .newStr, .pop, .pop, .newStr] := by decide
+open BS.ParseLink in
+def parsedX : Heap.Heap := (prun PSt.init [.newTag, .newStr, .newTag, .newStr, .pop, .pop, .newStr]).heap
+example : parsedX.kids 0 = [1, 5] ∧ parsedX.kids 1 = [2, 3] ∧ parsedX.kids 3 = [4] ∧ parsedX.ne 0 = none ∧
+    parsedX.ne 4 = some 5 ∧ parsedX.pe 1 = none ∧ parsedX.ns 1 = some 5 ∧ parsedX.parent 5 = some 0 ∧
+    parsedX.next = 6 := by decide
 
 end BS.Props.C03
